@@ -114,6 +114,15 @@ PROPS = {
         note="trusted: dropping the boxed future is exactly what select!/timeout do",
         assumptions=SIM_ASSUME,
     ),
+    "C16": dict(
+        built=True, level="fault_enumeration", design_ref="4/C16",
+        technique="runtime monitoring with injected connection faults through in-memory pipes: error-count, spin, routing and release monitors (pipe halves dropped = transport handle released) at logical quiescent points, healthy-peer exchange for isolation",
+        rule="faults = every socket type (9) x cut position in the dying peer's stream (7 positions inside/around its second message; 7 handshake offsets) x {orderly close, reset, protocol error at item boundaries; + write error during handshake} x discovery order {read side first, write side first} x 0..3 other live peers, enumerated completely; non-trivial = every case (a connection actually ends); distinct by grid coordinates. 'Observed' = the pipe handed the end/undecodable bytes to the library's read side, or an awaited send returned the write error",
+        text="The fault grid is enumerated completely against the real sockets; descriptor/task accounting over real TCP/IPC is a separate leg. Faults outside the grid (one-directional failures) are deliberately not generated.",
+        note="trusted: pipe Drop hooks as the definition of 'transport handle released'",
+        assumptions=SIM_ASSUME + ["an ended connection is dead in both directions (close: EOF + EPIPE, reset: ECONNRESET both ways)", "PUB/XPUB send is fire-and-forget: write-first discovery on a publisher only requires release after the read side was polled"],
+        hang_is_violation=True,
+    ),
     "C19": dict(
         built=True, level="exploration", design_ref="4/C19",
         technique="runtime differential monitor: library parser vs independent reference parser over exhaustive small-alphabet strings, grammar-based and random Unicode strings; panic, accept/reject, classification and round-trip oracles",
@@ -174,4 +183,4 @@ def write_manifest(path):
 
 
 HOOK_COMMITS = ["c9656b6"]
-FIX_COMMITS = ["48acad6", "f3d84e9", "be9d015", "f1a8fb7", "1cfb825", "8c4f97d", "f5bbfca"]
+FIX_COMMITS = ["48acad6", "f3d84e9", "be9d015", "f1a8fb7", "1cfb825", "8c4f97d", "f5bbfca", "5a43de4", "bb4d285", "5ad7c15", "d7cbe1d"]
